@@ -81,6 +81,9 @@ impl<'a> Exec<'a> {
         plan: &DrawPlan,
     ) -> Result<(ResultSet, BTreeMap<SiteKey, SiteLog>), String> {
         let r = eng.query(sql, plan);
+        if std::env::var("VERIF_DEBUG_SQL").is_ok() {
+            eprintln!("SQL[{}] {}\n  -> {:?}", what, sql, r.as_ref().map(|x| x.0.rows.iter().take(6).collect::<Vec<_>>()));
+        }
         self.stats.statements += 1;
         self.stats.executions += 1;
         match &r {
